@@ -44,7 +44,8 @@ class Env:
                       "ForwardResult": enum_discriminants(common.REPO + "/" + RT + "mirror.rs", "ForwardResult")}
         # layout produced by #[dora_object]: header word first, then the declared fields
         G.SIZES["mirror::Array<u8>"] = (16, 8)
-        G.SIZES["*const u8"] = (8, 8)
+        G.SIZES["gc::Address"] = (8, 8)                 # #[repr(C)] struct Address(usize)
+        G.SIZES["runtime::waitlists::HashMapEntry<T>"] = (16, 8)      # { key: Address, value: u64 }
         f = prog.find("Array::len")
         txt = " ".join(s.text or "" for b in f.blocks.values() for s in b.stmts)
         m = re.search(r"\(\*_1\)\.(\d+): usize", txt)
@@ -109,15 +110,6 @@ def m_t_default(it, ctx, callee, args):
     return Int(0, "u64")          # the table's value type is u64 in this check
 
 
-def nat_ret(nat, *args):
-    r = common.native(nat, "gck", *args)
-    o = {"panic": "panic" in r}
-    if o["panic"]:
-        o["msg"] = r["panic"]
-        return o, r
-    return o, r
-
-
 def num(s):
     return int(s)
 
@@ -148,27 +140,12 @@ def header_harnesses(E):
         O["word_after_reads"] = E.word(h)
         return O
 
-    def nat1(nat, v):
-        o, r = nat_ret(nat, "hdr", "compute_word", v["v"], v["b"], v["m"], v["r"])
-        if o["panic"]:
-            return o
-        o["computed"] = num(r["ret"])
-        _, r = nat_ret(nat, "hdr", "setup", v["w0"], v["v"], v["b"], v["m"], v["r"])
-        if "panic" in r:
-            return {"panic": True, "msg": r["panic"]}
-        w = o["word"] = num(r["word"])
-        for key, op, extra in (("vtbl", "raw_vtblptr", [v["b"]]), ("marked", "is_marked", []), ("remembered", "is_remembered", []),
-                               ("kp", "vtblptr_or_fwdptr", [v["b"]])):
-            _, r = nat_ret(nat, "hdr", op, w, *extra)
-            if "panic" in r:
-                return {"panic": True, "msg": r["panic"]}
-            if key == "kp":
-                o["kind"], p = r["ret"].split(":")
-                o["payload"] = num(p)
-                o["word_after_reads"] = num(r["word"])
-            else:
-                o[key] = num(r["ret"])
+    def parse_kind(r, keys):
+        o = {k: num(r[k]) for k in keys}
+        o["kind"], o["payload"] = r["kind"], num(r["payload"])
         return o
+    nat1 = (lambda v: ["hdr", "roundtrip", v["w0"], v["v"], v["b"], v["m"], v["r"]],
+            lambda r: parse_kind(r, ("computed", "word", "vtbl", "marked", "remembered", "word_after_reads")))
 
     def spec1(I, O):
         if O["panic"]:
@@ -212,14 +189,7 @@ def header_harnesses(E):
                 O["ret"] = b2i(r)
             return O
 
-        def nat(nat_, v):
-            o, r = nat_ret(nat_, "hdr", op, v["w"])
-            if o["panic"]:
-                return o
-            o["word"] = num(r["word"])
-            if retbool:
-                o["ret"] = num(r["ret"])
-            return o
+        nat = (lambda v: ["hdr", op, v["w"]], lambda r: {k: num(r[k]) for k in (("word", "ret") if retbool else ("word",))})
         return sym, nat
 
     def spec_try_mark(I, O):
@@ -287,17 +257,7 @@ def header_harnesses(E):
         O["kind"], O["payload"] = k.variant, addr_t(k.fields[0])
         return O
 
-    def nat3(nat, v):
-        o, r = nat_ret(nat, "hdr", "install_fwdptr", v["w0"], v["a"])
-        if o["panic"]:
-            return o
-        o["word"] = num(r["word"])
-        _, r = nat_ret(nat, "hdr", "vtblptr_or_fwdptr", o["word"], v["b"])
-        if "panic" in r:
-            return {"panic": True, "msg": r["panic"]}
-        o["kind"], p = r["ret"].split(":")
-        o["payload"] = num(p)
-        return o
+    nat3 = (lambda v: ["hdr", "install_decode", v["w0"], v["a"], v["b"]], lambda r: parse_kind(r, ("word",)))
 
     def spec3(I, O):
         if O["panic"]:
@@ -317,13 +277,7 @@ def header_harnesses(E):
         k = it.call(ctx, "Header::vtblptr_or_fwdptr", [h, E.addr(I["b"])])
         return {"kind": k.variant, "payload": addr_t(k.fields[0]), "word": E.word(h)}
 
-    def nat3b(nat, v):
-        o, r = nat_ret(nat, "hdr", "vtblptr_or_fwdptr", v["w"], v["b"])
-        if o["panic"]:
-            return o
-        o["kind"], p = r["ret"].split(":")
-        o["payload"], o["word"] = num(p), num(r["word"])
-        return o
+    nat3b = (lambda v: ["hdr", "decode", v["w"], v["b"]], lambda r: parse_kind(r, ("word",)))
 
     def spec3b(I, O):
         if O["panic"]:
@@ -348,14 +302,11 @@ def header_harnesses(E):
         O["payload"] = addr_t(r.fields[0]) if r.fields else bv(0)
         return O
 
-    def nat4(nat, v):
-        # HeaderWord order: expected, base, new
-        o, r = nat_ret(nat, "hdr", "try_install_fwdptr", v["w"], v["e"], v["b"], v["n"])
-        if o["panic"]:
-            return o
+    def parse4(r):
         p = r["ret"].split(":")
-        o["kind"], o["payload"], o["word"] = p[0], (num(p[1]) if len(p) > 1 else 0), num(r["word"])
-        return o
+        return {"kind": p[0], "payload": (num(p[1]) if len(p) > 1 else 0), "word": num(r["word"])}
+    # HeaderWord order of operands: expected, base, new
+    nat4 = (lambda v: ["hdr", "try_install_fwdptr", v["w"], v["e"], v["b"], v["n"]], parse4)
 
     def spec4(I, O):
         if O["panic"]:
@@ -430,17 +381,15 @@ def tlab_harnesses(E):
         return f
 
     def nat(two):
-        def f(nat_, v):
-            o, r = nat_ret(nat_, "tlab", v["top"], v["end"], v["s1"], *([v["s2"]] if two else []))
-            if o["panic"]:
-                return o
+        def parse(r):
+            o = {}
             for i in (1, 2) if two else (1,):
                 x = r["r%d" % i]
                 o["some%d" % i], o["r%d" % i] = x != "None", (0 if x == "None" else num(x))
                 for k in ("top", "end", "rest"):
                     o["%s%d" % (k, i)] = num(r["%s%d" % (k, i)])
             return o
-        return f
+        return (lambda v: ["tlab", v["top"], v["end"], v["s1"]] + ([v["s2"]] if two else [])), parse
 
     def step_spec(I, O, i, top, end, size, pre=""):
         ok = O["some%d" % i]
@@ -508,11 +457,7 @@ def align_harnesses(E, tier):
             r = it.call(ctx, mirname, args_of(I))
             return {"ret": b2i(r) if retbool else (z3.ZeroExt(32, r.t) if r.w == 32 else r.t)}
 
-        def nat(nat_, v):
-            o, r = nat_ret(nat_, "align", name, *natargs_of(v))
-            if not o["panic"]:
-                o["ret"] = num(r["ret"])
-            return o
+        nat = (lambda v: ["align", name] + list(natargs_of(v)), lambda r: {"ret": num(r["ret"])})
         hs.append(H("align/" + name, mirname, ins, pre, sym, nat, spec, twins, samples, need=need))
 
     def up_spec(what, v_of, a_of, nowrap):
@@ -543,12 +488,7 @@ def align_harnesses(E, tier):
         return sym
 
     def nat_up(a_of):
-        def nat(nat_, v):
-            o, r = nat_ret(nat_, "align", "align_usize_up", v["v"], a_of(v))
-            if not o["panic"]:
-                o["ret"] = num(r["ret"])
-            return o
-        return nat
+        return (lambda v: ["align", "align_usize_up", v["v"], a_of(v)], lambda r: {"ret": num(r["ret"])})
     hs.append(H("align/align_usize_up", "mem::align_usize_up", [("v", "usize"), ("sh", "usize")], lambda I: ult(I["sh"], 64),
                 sym_up(None, 0, 64, "sh"), nat_up(lambda v: 1 << v["sh"]), up_spec("align_usize_up", lambda I: I["v"], A2, nowrap_ua),
                 lambda I, O: [("align_usize_up panics (debug) beyond the precondition: value + align > usize::MAX", True)] if O["panic"] else
@@ -580,11 +520,7 @@ def align_harnesses(E, tier):
         k = ctx.concretize(Int(I["sh"], "i32"), 0, 17)
         return {"ret": z3.ZeroExt(32, it.call(ctx, "mem::align_i32", [Int(I["v"], "i32"), Int(1 << k, "i32")]).t)}
 
-    def nat_i32(nat_, v):
-        o, r = nat_ret(nat_, "align", "align_i32", v["v"], 1 << v["sh"])
-        if not o["panic"]:
-            o["ret"] = num(r["ret"])
-        return o
+    nat_i32 = (lambda v: ["align", "align_i32", v["v"], 1 << v["sh"]], lambda r: {"ret": num(r["ret"])})
     hs.append(H("align/align_i32", "mem::align_i32", [("v", "i32"), ("sh", "i32")], lambda I: z3.And(I["v"] >= 0, I["sh"] >= 0, I["sh"] <= 16), sym_i32, nat_i32, spec_i32,
                 lambda I, O: [("align_i32 overflow panic reachable", True)] if O["panic"] else [("rounded up", z3.Extract(31, 0, O["ret"]) != I["v"])],
                 lambda rng: [{"v": v, "sh": a} for v, a in ((13, 3), (16, 3), (0, 4), (2147483647, 3), (2147483640, 3), (2147483639, 3), (77, 2), (5, 0))],
@@ -653,11 +589,7 @@ def region_harnesses(E):
             r = it.call(ctx, "Address::" + op, args)
             return {"ret": r.t if isinstance(r, Int) else addr_t(r)}
 
-        def nat(nat_, v):
-            o, r = nat_ret(nat_, "addr", op, v["a"], v["x"])
-            if not o["panic"]:
-                o["ret"] = num(r["ret"])
-            return o
+        nat = (lambda v: ["addr", op, v["a"], v["x"]], lambda r: {"ret": num(r["ret"])})
 
         def spec(I, O):
             if O["panic"]:
@@ -687,17 +619,7 @@ def region_harnesses(E):
         O["empty"] = b2i(it.call(ctx, "Region::empty", [rr]))
         return O
 
-    def nat_r(nat, v):
-        o = {"panic": False}
-        for k, a in (("new", []), ("contains", [v["x"]]), ("valid_top", [v["x"]]), ("size", []), ("empty", [])):
-            p, r = nat_ret(nat, "region", k, v["s"], v["e"], *a)
-            if p["panic"]:
-                return p
-            if k == "new":
-                o["start"], o["end"] = [num(t) for t in r["ret"].split(",")]
-            else:
-                o[k] = num(r["ret"])
-        return o
+    nat_r = (lambda v: ["region", "all", v["s"], v["e"], v["x"]], lambda r: {k: num(r[k]) for k in ("start", "end", "contains", "valid_top", "size", "empty")})
 
     def spec_r(I, O):
         s, e, x = I["s"], I["e"], I["x"]
@@ -725,14 +647,7 @@ def region_harnesses(E):
         return {"disjunct": b2i(it.call(ctx, "Region::disjunct", [r1, r2])), "overlaps": b2i(it.call(ctx, "Region::overlaps", [r1, r2])),
                 "fully": b2i(it.call(ctx, "Region::fully_contains", [r1, r2]))}
 
-    def nat_2(nat, v):
-        o = {"panic": False}
-        for k, kk in (("disjunct", "disjunct"), ("overlaps", "overlaps"), ("fully_contains", "fully")):
-            p, r = nat_ret(nat, "region", k, v["s1"], v["e1"], v["s2"], v["e2"])
-            if p["panic"]:
-                return p
-            o[kk] = num(r["ret"])
-        return o
+    nat_2 = (lambda v: ["region", "pairs", v["s1"], v["e1"], v["s2"], v["e2"]], lambda r: {k: num(r[k]) for k in ("disjunct", "overlaps", "fully")})
 
     def spec_2(I, O):
         if O["panic"]:
@@ -772,12 +687,7 @@ def array_harnesses(E, tier):
         return f
 
     def nat(es):
-        def f(nat_, v):
-            o, r = nat_ret(nat_, "arraysize", v["elem"] if es is None else es, v["len"])
-            if not o["panic"]:
-                o["ret"] = num(r["ret"])
-            return o
-        return f
+        return (lambda v: ["arraysize", v["elem"] if es is None else es, v["len"]], lambda r: {"ret": num(r["ret"])})
 
     def spec(es):
         def f(I, O):
